@@ -252,6 +252,16 @@ theorem obs_fit_of_safe (ops : DataOps D V) (F : Fitters C V O P D) (c : C) (k :
       Variant.asFound_cacheSize, if_true, ite_self]
     rw [hopts]
 
+/-- every query is a function of the observation (and of the never-written constructor options). -/
+theorem query_congr {R : Type} (E : Evals C V O P R) (s s' : UState C V O P) (q : Q)
+    (h : obs s = obs s') (ho : s.ctor.other = s'.ctor.other) : query E s q = query E s' q := by
+  have h1 : s.cls = s'.cls := congrArg Obs.cls h
+  have h2 : s.fitted = s'.fitted := congrArg Obs.fitted h
+  have h3 : s.override = s'.override := congrArg Obs.override h
+  have h4 : s.params = s'.params := congrArg Obs.params h
+  unfold query
+  rw [h1, h2, h3, h4, ho]
+
 /-! ## closed refutation of re-fit purity for the code as found -/
 
 /-- "re-fitting gives the same observable model as fitting a fresh one", for every interpretation of
